@@ -130,14 +130,16 @@ func (vfs *MemFS) VolumeDelete(path string) error {
 		return &fs.PathError{Op: op, Path: path, Err: avfs.ErrVolumeNameInvalid}
 	}
 
-	_, ok := vfs.volumes[vol]
+	nd, ok := vfs.volumes[vol]
 	if !ok {
 		return &fs.PathError{Op: op, Path: path, Err: avfs.ErrVolumeNameInvalid}
 	}
 
-	err := vfs.RemoveAll(vol)
+	// The root directory of the volume is emptied and goes away with the volume
+	// (RemoveAll does not remove a root directory).
+	err := vfs.removeAll(nd)
 	if err != nil {
-		return err
+		return &fs.PathError{Op: op, Path: path, Err: err}
 	}
 
 	delete(vfs.volumes, vol)
